@@ -8,7 +8,7 @@ import DnpModel
 open Lean Dnp Np
 
 abbrev D := Data Rat GRat
-abbrev Store := List (Nat × D)
+abbrev Store := Dnp.Store Rat GRat
 abbrev M := Except String
 
 def parseRat (s : String) : M Rat :=
@@ -97,11 +97,6 @@ def objJ (d : D) : Json :=
 
 def storeJ (s : Store) : Json := Json.mkObj (s.map (fun (i, d) => (toString i, objJ d)))
 
-def Store.get (s : Store) (i : Nat) : M D :=
-  match s.find? (·.1 == i) with | some (_, d) => pure d | none => throw s!"no object {i}"
-def Store.set (s : Store) (i : Nat) (d : D) : Store :=
-  if s.any (·.1 == i) then s.map (fun p => if p.1 == i then (i, d) else p) else s ++ [(i, d)]
-
 /-! scalar functions -/
 def rdist (a b : Rat) : Rat := ratAbs (a - b)
 def rlt (a b : Rat) : Bool := a < b
@@ -153,15 +148,9 @@ def ufuncName : String → String
 
 def arangeR (n : Nat) : List Rat := (List.range n).map (fun (k : Nat) => (k : Rat))
 
-structure Out where
-  store : Store
-  outcome : String := "ok"
-  ret : Option Json := none
-
-def fromExcept (s : Store) (r : Except Err Store) : Out :=
-  match r with
-  | .ok s' => { store := s' }
-  | .error e => { store := s, outcome := "raise:" ++ e.toString }
+def sc : Scalars Rat GRat :=
+  { dist := rdist, lt := rlt, le := rle, close := rclose, arange := arangeR, ofκ := GRat.ofRat,
+    ofNat := fun n => ⟨(n : Rat), 0⟩, ltα := GRat.lt, add := (· + ·) }
 
 def jAxis (j : Json) : M Data.Axis := do
   match jFieldOpt j "axis" with
@@ -170,23 +159,16 @@ def jAxis (j : Json) : M Data.Axis := do
     | .ok s => pure (.name s)
     | .error _ => do pure (.pos (← jInt v))
 
-def step (s : Store) (j : Json) : M Out := do
+def gtα (a b : GRat) : Bool := GRat.lt b a
+
+/-- protocol line → operation of the model's alphabet -/
+def decodeOp (j : Json) : M (Op Rat GRat) := do
   let op ← jStr (← jField j "op")
-  let objOf (k : String) : M (Nat × D) := do
-    let i ← jNat (← jField j k); pure (i, ← s.get i)
-  let outId : M Nat := do jNat (← jField j "out")
-  -- in-place op on the receiver
-  let inplace (f : D → Except Err D) : M Out := do
-    let (i, d) ← objOf "obj"
-    pure (fromExcept s ((f d).map (s.set i)))
-  -- op producing a new object
-  let produce (f : D → Except Err D) : M Out := do
-    let (_, d) ← objOf "obj"
-    let o ← outId
-    pure (fromExcept s ((f d).map (s.set o)))
+  let nat (k : String) : M Nat := do jNat (← jField j k)
+  let str (k : String) : M String := do jStr (← jField j k)
+  let refl := (jFieldOpt j "refl").isSome
   match op with
   | "new" =>
-    let i ← jNat (← jField j "id")
     let dims ← jStrList (← jField j "dims")
     let coords ← (← jArr (← jField j "coords")).mapM jRatList
     let shape ← jNatList (← jField j "shape")
@@ -194,111 +176,80 @@ def step (s : Store) (j : Json) : M Out := do
     let attrs ← match jFieldOpt j "attrs" with | some a => jDict a | none => pure []
     let dattrs ← match jFieldOpt j "dattrs" with | some a => jDict a | none => pure []
     let hist ← match jFieldOpt j "hist" with | some a => jHist a | none => pure []
-    pure { store := s.set i { dims, coords, values := ⟨shape, vals⟩, attrs, dattrs, hist } }
-  | "copy" => produce (fun d => .ok d)
-  | "reorder" => do let ds ← jStrList (← jField j "dims"); inplace (·.reorder ds)
-  | "sort_dims" => inplace (fun d => .ok d.sortDims)
-  | "rename" => do
-    let a ← jStr (← jField j "dim"); let b ← jStr (← jField j "new"); inplace (·.rename a b)
-  | "sort" => do let a ← jStr (← jField j "dim"); inplace (fun d => d.sort rle a)
-  | "new_dim" => do
-    let a ← jStr (← jField j "dim"); let c ← jRat (← jField j "coord"); inplace (·.newDim a c)
-  | "squeeze" => inplace (fun d => .ok d.squeeze)
-  | "split" => do
-    let a ← jStr (← jField j "dim"); let b ← jStr (← jField j "new")
-    let c ← jRatList (← jField j "coord"); inplace (·.split a b c)
-  | "concatenate" => do
-    let (_, b) ← objOf "other"; let a ← jStr (← jField j "dim"); inplace (·.concatenate b a)
-  | "unfold" => do let a ← jStr (← jField j "dim"); inplace (fun d => d.unfold arangeR a)
-  | "fold" => inplace (·.fold)
-  | "getitem" => do let sels ← jSels (← jField j "sel"); produce (fun d => d.getitem rdist rlt sels)
-  | "setitem" => do
-    let sels ← jSels (← jField j "sel")
-    let v ← jGRat (← jField j "value")
-    inplace (fun d => d.setitemWith rdist rlt sels (fun _ => v))
-  | "binop" => do
-    let f ← binF (← jStr (← jField j "f"))
-    let (_, a) ← objOf "lhs"; let (_, b) ← objOf "rhs"; let o ← outId
-    pure (fromExcept s ((Data.binop rclose f a b).map (s.set o)))
-  | "scalarop" => do
-    let f ← binF (← jStr (← jField j "f"))
-    let c ← jGRat (← jField j "scalar")
-    let refl := (jFieldOpt j "refl").isSome
-    produce (fun d => .ok (d.scalarOp (fun x => if refl then f c x else f x c)))
-  | "arrayop" => do
-    let f ← binF (← jStr (← jField j "f"))
+    pure (.new (← nat "id") { dims, coords, values := ⟨shape, vals⟩, attrs, dattrs, hist })
+  | "copy" => pure (.copy (← nat "obj") (← nat "out"))
+  | "reorder" => pure (.reorder (← nat "obj") (← jStrList (← jField j "dims")))
+  | "sort_dims" => pure (.sortDims (← nat "obj"))
+  | "rename" => pure (.rename (← nat "obj") (← str "dim") (← str "new"))
+  | "sort" => pure (.sort (← nat "obj") (← str "dim"))
+  | "new_dim" => pure (.newDim (← nat "obj") (← str "dim") (← jRat (← jField j "coord")))
+  | "squeeze" => pure (.squeeze (← nat "obj"))
+  | "split" => pure (.split (← nat "obj") (← str "dim") (← str "new") (← jRatList (← jField j "coord")))
+  | "concatenate" => pure (.concatenate (← nat "obj") (← nat "other") (← str "dim"))
+  | "unfold" => pure (.unfold (← nat "obj") (← str "dim"))
+  | "fold" => pure (.fold (← nat "obj"))
+  | "unfold_fold" => pure (.unfoldFold (← nat "obj") (← str "dim"))
+  | "getitem" => pure (.getitem (← nat "obj") (← jSels (← jField j "sel")) (← nat "out"))
+  | "setitem" => pure (.setitem (← nat "obj") (← jSels (← jField j "sel")) (← jGRat (← jField j "value")))
+  | "binop" => pure (.binop (← binF (← str "f")) (← nat "lhs") (← nat "rhs") (← nat "out"))
+  | "scalarop" =>
+    let f ← binF (← str "f"); let c ← jGRat (← jField j "scalar")
+    pure (.scalarOp (fun x => if refl then f c x else f x c) (← nat "obj") (← nat "out"))
+  | "arrayop" =>
+    let fname ← str "f"; let f ← binF fname
     let shape ← jNatList (← jField j "shape")
     let vals ← (← jArr (← jField j "values")).mapM jGRat
-    let refl := (jFieldOpt j "refl").isSome
     -- `ndarray ∘ data` is dispatched by NumPy to `__array_ufunc__`, which stamps the history
-    let fname ← jStr (← jField j "f")
-    produce (fun d => (d.arrayOp (fun x y => if refl then f y x else f x y) ⟨shape, vals⟩).map
-      (fun r => if refl then r.addHist ("numpy." ++ ufuncName fname) ["args", "kwargs"] else r))
-  | "method" => do
-    let f ← jStr (← jField j "f"); let dim ← jStr (← jField j "dim")
-    let ofR : Rat → GRat := GRat.ofRat
-    let ofN (n : Nat) : GRat := ⟨(n : Rat), 0⟩
+    pure (.arrayOp (fun x y => if refl then f y x else f x y)
+      (if refl then some ("numpy." ++ ufuncName fname) else none) (← nat "obj") ⟨shape, vals⟩ (← nat "out"))
+  | "method" =>
+    let f ← str "f"; let obj ← nat "obj"; let dim ← str "dim"; let out ← nat "out"
     match f with
-    | "sum" => produce (·.reduceDim gsum dim)
-    | "maximum" => produce (·.reduceDim (gbest (fun a b => GRat.lt b a)) dim)
-    | "minimum" => produce (·.reduceDim (gbest GRat.lt) dim)
-    | "argmax" => produce (·.argCoord ofR (fun a b => GRat.lt b a) dim)
-    | "argmin" => produce (·.argCoord ofR GRat.lt dim)
-    -- a 1-D object makes numpy.argmax return a NumPy integer scalar, which the values setter rejects
-    | "argmax_index" => produce (fun d => if d.dims.length = 1 ∧ dim ∈ d.dims then .error .type else
-        d.reduceDim (fun l => ofN (argBest (fun a b => GRat.lt b a) l)) dim)
-    | "argmin_index" => produce (fun d => if d.dims.length = 1 ∧ dim ∈ d.dims then .error .type else
-        d.reduceDim (fun l => ofN (argBest GRat.lt l)) dim)
-    | "cumulative_sum" => produce (·.cumulativeSum dim)
+    | "sum" => pure (.reduce gsum obj dim out)
+    | "maximum" => pure (.reduce (gbest gtα) obj dim out)
+    | "minimum" => pure (.reduce (gbest GRat.lt) obj dim out)
+    | "argmax" => pure (.argCoord gtα obj dim out)
+    | "argmin" => pure (.argCoord GRat.lt obj dim out)
+    | "argmax_index" => pure (.argIndex gtα obj dim out)
+    | "argmin_index" => pure (.argIndex GRat.lt obj dim out)
+    | "cumulative_sum" => pure (.cumsum obj dim out)
     | _ => throw s!"unknown method {f}"
-  | "np_reduce" => do
-    let fname ← jStr (← jField j "f")
-    let f ← redF fname
-    let ax ← jAxis j
-    let (_, d) ← objOf "obj"; let o ← outId
-    match d.npReduce fname f ax with
-    | .error e => pure { store := s, outcome := "raise:" ++ e.toString }
-    | .ok (.inl r) => pure { store := s.set o r }
-    | .ok (.inr v) => pure { store := s, ret := some (gJ v) }
-  | "np_unary" => do
-    let fname ← jStr (← jField j "f"); let f ← unF fname
-    produce (fun d => .ok (d.npUnary (ufuncName fname) f))
-  | "np_binary" => do
-    let fname ← jStr (← jField j "f"); let f ← binF fname
-    let (_, a) ← objOf "lhs"; let (_, b) ← objOf "rhs"; let o ← outId
-    pure (fromExcept s ((Data.npBinaryData (ufuncName fname) f a b).map (s.set o)))
-  | "np_scalar" => do
-    let fname ← jStr (← jField j "f"); let f ← binF fname
-    let c ← jGRat (← jField j "scalar")
-    let refl := (jFieldOpt j "refl").isSome
-    produce (fun d => .ok ((d.scalarOp (fun x => if refl then f c x else f x c)).addHist ("numpy." ++ ufuncName fname) ["args", "kwargs"]))
-  | "concat" => do
+  | "np_reduce" =>
+    let fname ← str "f"
+    pure (.npReduce fname (← redF fname) (← nat "obj") (← jAxis j) (← nat "out"))
+  | "np_unary" =>
+    let fname ← str "f"
+    pure (.npUnary (ufuncName fname) (← unF fname) (← nat "obj") (← nat "out"))
+  | "np_binary" =>
+    let fname ← str "f"
+    pure (.npBinary (ufuncName fname) (← binF fname) (← nat "lhs") (← nat "rhs") (← nat "out"))
+  | "np_scalar" =>
+    let fname ← str "f"; let f ← binF fname; let c ← jGRat (← jField j "scalar")
+    pure (.npUnary (ufuncName fname) (fun x => if refl then f c x else f x c) (← nat "obj") (← nat "out"))
+  | "concat" =>
     let ids ← (← jArr (← jField j "objs")).mapM jNat
-    let ds ← ids.mapM s.get
-    let dim ← jStr (← jField j "dim")
     let coord ← match jFieldOpt j "coord" with | some c => some <$> jRatList c | none => pure none
-    let o ← outId
-    pure (fromExcept s ((Data.concat arangeR ds dim coord).map (s.set o)))
-  | "set_attr" => do
-    let k ← jStr (← jField j "key"); let v ← jStr (← jField j "value")
-    inplace (fun d => .ok { d with attrs := Data.dictSet d.attrs k v })
-  | "set_dattr" => do
-    let k ← jStr (← jField j "key"); let v ← jStr (← jField j "value")
-    inplace (fun d => .ok { d with dattrs := Data.dictSet d.dattrs k v })
-  | "add_hist" => do
-    let n ← jStr (← jField j "name"); let ks ← jStrList (← jField j "keys")
-    inplace (fun d => .ok (d.addHist n ks))
-  | "set_value" => do
-    let k ← jNat (← jField j "flat"); let v ← jGRat (← jField j "value")
-    inplace (fun d => .ok { d with values := ⟨d.values.shape, setAt d.values.data k v⟩ })
-  | "set_coord" => do
-    let dim ← jStr (← jField j "dim"); let k ← jNat (← jField j "k"); let v ← jRat (← jField j "value")
-    inplace (fun d => .ok { d with coords := setAt d.coords (d.index dim) (setAt (d.coord dim) k v) })
-  | "del" => do
-    let i ← jNat (← jField j "obj")
-    pure { store := s.filter (·.1 != i) }
-  | "reset" => pure { store := [] }
+    pure (.concat ids (← str "dim") coord (← nat "out"))
+  | "set_attr" => pure (.setAttr (← nat "obj") (← str "key") (← str "value"))
+  | "set_dattr" => pure (.setDattr (← nat "obj") (← str "key") (← str "value"))
+  | "add_hist" => pure (.addHist (← nat "obj") (← str "name") (← jStrList (← jField j "keys")))
+  | "set_value" => pure (.setValue (← nat "obj") (← nat "flat") (← jGRat (← jField j "value")))
+  | "set_coord" => pure (.setCoord (← nat "obj") (← str "dim") (← nat "k") (← jRat (← jField j "value")))
+  | "del" => pure (.del (← nat "obj"))
   | _ => throw s!"unknown op {op}"
+
+structure Out where
+  store : Store
+  outcome : String := "ok"
+  ret : Option Json := none
+
+def stepJ (s : Store) (j : Json) : M Out := do
+  if (← jStr (← jField j "op")) == "reset" then return { store := [] }
+  let op ← decodeOp j
+  let r := Dnp.step sc s op
+  pure { store := r.store,
+         outcome := match r.err with | some e => "raise:" ++ e.toString | none => "ok",
+         ret := r.ret.map gJ }
 
 partial def loop (h : IO.FS.Stream) (out : IO.FS.Stream) (s : Store) : IO Unit := do
   let line ← h.getLine
@@ -309,7 +260,7 @@ partial def loop (h : IO.FS.Stream) (out : IO.FS.Stream) (s : Store) : IO Unit :
     out.putStrLn (Json.compress (Json.mkObj [("outcome", Json.str ("driver-error:" ++ e))]))
     loop h out s
   | .ok j =>
-    match step s j with
+    match stepJ s j with
     | .error e => do
       out.putStrLn (Json.compress (Json.mkObj [("outcome", Json.str ("driver-error:" ++ e)), ("store", storeJ s)]))
       loop h out s
